@@ -251,7 +251,8 @@ def linSpline (o : XOps α) (box : Box) (eps : Float) (up : List α) (inverse : 
   if inverse then
     let idx := searchsortedG o eps cdf x'
     let bnd := linspace01 o K
-    -- linear.py (after the fix): slope of bin k = pdf_k * num_bins (what the forward pass uses), line anchored at the right knot
+    -- linear.py (after the fix): the slope of bin k is `pdf_k * num_bins` (what the forward pass uses, not
+    -- `diffs(cdf)/diffs(boundaries)`), and the line of the bin is anchored at its right knot
     let slopes := pdf.map (fun p => o.mul p (o.ofNat K))
     let s ← getI slopes idx
     let rc ← getI (cdf.drop 1) idx
@@ -261,9 +262,9 @@ def linSpline (o : XOps α) (box : Box) (eps : Float) (up : List α) (inverse : 
     return (o.add (o.mul out (o.ofFloat (box.right - box.left))) (o.ofFloat box.left), o.sub ld bl)
   else
     let binPos := o.mul x' (o.ofNat K)
-    let fl := o.floor binPos
-    let idxF := o.toFloat fl
-    let idx : Int := if idxF >= K.toFloat then Int.ofNat K - 1 else idxF.toInt64.toInt
+    -- `torch.floor(bin_pos).long()` then `bin_idx[bin_idx >= num_bins] = num_bins - 1` (an integer comparison)
+    let f := o.floorInt binPos
+    let idx : Int := if f ≥ Int.ofNat K then Int.ofNat K - 1 else f
     let al := o.sub binPos (o.ofRat idx 1)
     let p ← getI pdf idx
     let c0 ← getI cdf idx
